@@ -81,6 +81,7 @@ HDR_NAMES = ['X-Foo', 'X-Bar', 'b']
 def facts(src):
     problems = []
     summary = F.check_shapes(src, os.path.join(HERE, 'pins.json'), problems)
+    summary.update(F.check_shapes(src, os.path.join(HERE, 'pins_audit.json'), problems))   # coverage audit: see NOTES.md
     v = c03facts.extract(src, problems)
     summary.update({'max_order': v['max_order'], 'weight': v['weight'], 'order_of': v['order_of'],
                     'score_step': v['score_step'], 'pred_names': v['pred_names'],
@@ -141,7 +142,7 @@ def gen_view(rng, tag, routes, third, focus):
         ctx, name = rng.choice(CTXS), rng.choice(['', '', '', 'v', 'v', 'w'])
     return {'ctx': ctx, 'name': name, 'route': route, 'preds': preds, 'nots': sorted(nots),
             'accept': rng.choice(OFFERS) if rng.random() < 0.12 else None,
-            'perm': rng.random() < 0.12, 'tag': tag}
+            'perm': rng.random() < 0.12, 'tag': tag, 'raises404': rng.random() < 0.08}
 
 
 CTX_PATHS = {'A': [['a'], ['a', 'b'], ['a', 'b', 'c'], ['u', 'i'], ['u', 'c']], 'B': [['a', 'b'], ['a', 'b', 'c'], ['u', 'c']],
@@ -230,7 +231,8 @@ def gen_case(rng):
     commits = None                                # None: autocommit, one commit per add_view
     if rng.random() < 0.5:                        # else: 1-3 explicit commits
         commits = sorted(need | set(rng.sample(range(nv), rng.choice([0, 1, 2]))))
-    case = {'routes': routes, 'third': third, 'views': views, 'commits': commits, 'requests': []}
+    case = {'routes': routes, 'third': third, 'views': views, 'commits': commits, 'requests': [],
+            'rootnone': rng.random() < 0.3}
     points = _points(case)
     for _ in range(rng.choice([10, 12, 14])):
         tidx, r = gen_request(rng, case)
@@ -258,7 +260,7 @@ def generate(rng, tier, n):
 
 def valid(case):
     try:
-        if not isinstance(case, dict) or set(case) != {'routes', 'third', 'views', 'requests', 'commits'}:
+        if not isinstance(case, dict) or set(case) - {'rootnone'} != {'routes', 'third', 'views', 'requests', 'commits'}:
             return False
         if not case['views'] or not case['requests']:
             return False
@@ -346,6 +348,8 @@ def shrinks(case):
             yield dict(case, commits=case['commits'][:i] + case['commits'][i + 1:])
     if case['commits'] is not None:
         yield dict(case, commits=None)
+    if case.get('rootnone'):
+        yield dict(case, rootnone=False)
     n = len(case['views'])
     for i, r in enumerate(case['requests']):
         if _after(r, n) != n:
@@ -356,8 +360,8 @@ def shrinks(case):
             del p[n]
             yield dict(case, views=case['views'][:i] + [dict(v, preds=p, nots=[x for x in v['nots'] if x != n])]
                        + case['views'][i + 1:])
-        for k, simple in (('accept', None), ('perm', False), ('route', None), ('nots', [])):
-            if v[k] != simple:
+        for k, simple in (('accept', None), ('perm', False), ('route', None), ('nots', []), ('raises404', False)):
+            if v.get(k, simple) != simple:
                 yield dict(case, views=case['views'][:i] + [dict(v, **{k: simple})] + case['views'][i + 1:])
     for i, r in enumerate(case['requests']):
         for k, simple in (('qs', []), ('post', []), ('headers', []), ('xhr', False), ('accept', None), ('route', None),
@@ -425,14 +429,18 @@ def setup(tier):
 
     for cls in (Root, A, B, C, U, X):
         cls.__module__ = 'c03'
-    root = Root('', None)
-    a = A('a', root)
-    b = B('b', a)
-    C('c', b)
-    u = U('u', root)
-    C('c', u)
-    alsoProvides(A('i', u), I)
-    root.kids['x'] = X(root)
+    def build_tree(rootname):
+        root = Root(rootname, None)
+        a = A('a', root)
+        b = B('b', a)
+        C('c', b)
+        u = U('u', root)
+        C('c', u)
+        alsoProvides(A('i', u), I)
+        root.kids['x'] = X(root)
+        return root
+    root = build_tree('')
+    root_none = build_tree(None)             # a root whose __name__ is None (pyramid's DefaultRootFactory spelling)
     classes = {'A': A, 'B': B, 'C': C, 'U': U, 'Root': Root, 'I': I}
 
     class Custom:
@@ -479,8 +487,8 @@ def setup(tier):
     _P.update(locals())
 
 
-def _find_resource(path):
-    node = _P['root']
+def _find_resource(path, rootnone=False):
+    node = _P['root_none' if rootnone else 'root']
     for seg in path:
         node = node[seg]
     return node
@@ -516,7 +524,8 @@ class World:
         self.made, self.failed, self.conflict = {}, set(), False
         self.results = [None] * len(case['requests'])
         world = self
-        cfg = P['Configurator'](autocommit=not batched, root_factory=lambda request: P['root'])
+        the_root = P['root_none' if case.get('rootnone') else 'root']
+        cfg = P['Configurator'](autocommit=not batched, root_factory=lambda request: the_root)
         cfg.set_security_policy(P['Policy']())
 
         def recorder(view, info):
@@ -584,8 +593,13 @@ class World:
         P = _P
         tag = v['tag']
 
+        raises = bool(v.get('raises404'))
+
         def body(context, request):
             request.environ['c03.log'].append(tag)
+            if raises:                      # the body ran and itself answers Not Found (not a predicate mismatch)
+                from pyramid.httpexceptions import HTTPNotFound
+                raise HTTPNotFound('body of v%d' % tag)
             resp = P['Response']('ok')
             resp.headers['X-Tag'] = 'v%d' % tag
             return resp
@@ -663,7 +677,7 @@ class World:
         """The request as the model sees it; every library-dependent part computed by the library."""
         P = _P
         req = self.environ(r)
-        ctx = _find_resource(r['path'])
+        ctx = _find_resource(r['path'], self.case.get('rootnone'))
         params = [[k, req.params.get(k)] for k in PARAM_KEYS + ['='] if req.params.get(k) is not None]
         hnames = set(HDR_NAMES)
         pats = set()
@@ -718,6 +732,8 @@ class World:
                 return ['MULTI', log]
             return [1, int(tag[1:])]
         if log:
+            if len(log) == 1 and any(v['tag'] == log[0] and v.get('raises404') for v in self.case['views']):
+                return [2, log[0]]          # exactly that body ran, and raised HTTPNotFound itself
             return ['BODY-RAN-BUT-404', log]
         return [0, 1 if tag == 'nf-pme' else 0]
 
@@ -766,6 +782,11 @@ def from_wire(case, raw):
     if raw == [['bad']] or not (isinstance(raw, list) and len(raw) == 3):
         return {'model': ['MODEL-BAD', raw], 'spec': None}
     gmades, mades, per = raw
+    raising = {v['tag'] for v in case['views'] if v.get('raises404')}
+
+    def ran(res):      # the lookup's answer "this body runs"; a body that raises HTTPNotFound is observed as [2, tag]
+        return [2, res[1]] if res and res[0] == 1 and res[1] in raising else res
+    per = [[ran(p[0])] + list(p[1:6]) + [ran(p[6])] for p in per]
     model = [gmades, [p[0] for p in per]]           # the answers of the program regenerated from the source
     if gmades != mades or any(p[0] != p[6] for p in per):
         model = ['REGENERATED-PROGRAM-DIFFERS-FROM-REFERENCE-MODEL', model, [mades, [p[6] for p in per]]]
@@ -780,7 +801,7 @@ def run_impl(case):
 
 # ------------------------------------------------------------------ judging
 def _fits(res, winners):
-    if res and res[0] == 1:
+    if res and res[0] in (1, 2):
         return res[1] in winners
     if res and res[0] == 0:
         return winners == []
@@ -846,7 +867,7 @@ def nontrivial(case, obs):
     other = False
     contested = False
     for r, res in zip(case['requests'], obs[1]):
-        if res and res[0] == 1:
+        if res and res[0] in (1, 2):
             ran.add(res[1])
             n = sum(1 for v in case['views'] if v['name'] == r['vname'] and (v['route'] is None or v['route'] == r['route']))
             contested = contested or n >= 2
@@ -883,7 +904,7 @@ def kinds(case, obs):
             if res and res[0] == 1:
                 k.append('req:ran-between-commits')
     for res in obs[1]:
-        k.append({1: 'req:ran', 0: 'req:notfound'}.get(res[0], 'req:odd') if res else 'req:odd')
+        k.append({1: 'req:ran', 2: 'req:ran-body-raised-404', 0: 'req:notfound'}.get(res[0], 'req:odd') if res else 'req:odd')
         if res and res[0] == 0:
             k.append('req:notfound-pme' if res[1] else 'req:notfound-noview')
     names = set()
@@ -907,6 +928,8 @@ def kinds(case, obs):
         k.append('cfg:multiview')
     if any(r['ugv'] for r in case['routes']):
         k.append('cfg:use_global_views')
+    if case.get('rootnone'):
+        k.append('cfg:root-named-None')
     k.append('cfg:autocommit' if case['commits'] is None else 'cfg:commits%d' % (len(case['commits']) + 1))
     vs = case['views']
     for i in range(len(vs)):
